@@ -63,6 +63,33 @@ def project_run(fields, elem_fields):
     return proj
 
 
+def case_features(case):
+    """input distribution of a case, read off its S-expression (cheap syntactic counts)"""
+    f = {}
+    if case.startswith("(case run "):
+        prog = case.split("(prog", 1)[-1].split("(seed", 1)[0]
+        for key, pat in (("nodes", "(node "), ("lines", "(line "), ("option_groups", "(opts "), ("options", "(opt "), ("ifs", "(if "), ("clauses", "(clause "),
+                         ("sets", "(set "), ("declares", "(declare "), ("jumps", "(jump "), ("commands", "(cmd "), ("calls", "(call "),
+                         ("function_calls", "(fn "), ("binary_ops", "(bin "), ("conditions_on_options", "(cond (b"), ("null_literals", "(null)")):
+            f[key] = prog.count(pat)
+        depth = cur = 0
+        for m in re.finditer(r"\(stmts|\)", prog):
+            pass
+        f["readers"] = case.split("(prog", 1)[0].count("(s ")
+        ops = case.split("(ops", 1)[-1]
+        for key, pat in (("op_next", "(next "), ("op_snap", "(snap "), ("op_restore", "(restore "), ("op_hostwrite", "(hset "), ("op_complete", "(complete "),
+                         ("op_newrunner", "(new "), ("op_mutsnap", "(mutsnap "), ("op_restorebad", "(restorebad ")):
+            f[key] = ops.count(pat)
+        # nesting depth of statement lists
+        d = mx = 0
+        for tok in re.findall(r"\(stmts|\(|\)", prog):
+            if tok == "(stmts":
+                d += 1
+                mx = max(mx, d)
+        f["programs_with_nesting_ge_3"] = 1 if prog.count("(opt ") and re.search(r"\(opt .*\(opt .*\(opt ", prog) else 0
+    return f
+
+
 def no_panic(obs, case):
     for i, o in enumerate(obs):
         if obs_kind(o) == "PANIC" or " PANIC" in o.split("|")[0]:
